@@ -303,7 +303,7 @@ func ruleGlobalState(c *Ctx, r *Report) {
 					r.bad(rule, fmt.Sprintf("%s/%s@%s", gname, a.what, fname(a.fn)), c.at(a.in), desc, why+": two interpreters used from two goroutines race on "+gname)
 				}
 			case a.escape:
-				// handled by the escape rule below
+				// the struct types of the engine are handled by the escape rule below, object pools by R-POOL-RELEASE
 			default:
 				if !s.postInit {
 					continue // init-only variable: reads need no protection
@@ -1067,4 +1067,194 @@ func (c *Ctx) blockingInstr(in ssa.Instruction, may map[*ssa.Function]string) st
 		}
 	}
 	return ""
+}
+
+// ---------------------------------------------------------------------------
+// R-POOL-RELEASE (C14; added after seed C14g): "interpreters share no mutable state". A sync.Pool is the one
+// construct through which an object used by one interpreter reaches another without a single unsynchronised
+// access: what is Put by one stream is what the next Get - in any interpreter - returns. The hand-over is sound
+// only if the releasing side forgets the object: when the released value was loaded from a field of a longer-
+// lived object (directly, or by the caller of a release helper), that field is overwritten on every path from the
+// release to the function's return. A stream that keeps its buffered reader after giving it to the pool reads
+// the next owner's file.
+func rulePoolRelease(c *Ctx, r *Report) {
+	const rule = "R-POOL-RELEASE"
+	desc := "an object handed to a shared pool is no longer referenced by the object it was taken from"
+	n := 0
+	isPoolPut := func(cc *ssa.CallCommon) bool {
+		f := cc.StaticCallee()
+		if f == nil || f.Name() != "Put" || f.Pkg == nil || f.Pkg.Pkg.Path() != "sync" {
+			return false
+		}
+		return f.Signature.Recv() != nil && isNamedIn(f.Signature.Recv().Type(), "sync", "Pool")
+	}
+	// fieldLoad: v is (a field of) a value loaded from a field address; returns that address
+	var fieldLoad func(v ssa.Value, depth int) (*ssa.FieldAddr, *ssa.Parameter)
+	fieldLoad = func(v ssa.Value, depth int) (*ssa.FieldAddr, *ssa.Parameter) {
+		if depth > 6 {
+			return nil, nil
+		}
+		switch x := v.(type) {
+		case *ssa.MakeInterface:
+			return fieldLoad(x.X, depth+1)
+		case *ssa.ChangeType:
+			return fieldLoad(x.X, depth+1)
+		case *ssa.Field:
+			return fieldLoad(x.X, depth+1)
+		case *ssa.Parameter:
+			return nil, x
+		case *ssa.UnOp:
+			if x.Op != token.MUL {
+				return nil, nil
+			}
+			switch a := x.X.(type) {
+			case *ssa.FieldAddr:
+				var base ssa.Value = a
+				for {
+					f, ok := base.(*ssa.FieldAddr)
+					if !ok {
+						break
+					}
+					base = f.X
+				}
+				if al, ok := base.(*ssa.Alloc); ok { // a field of a spilled value parameter (value receiver)
+					for _, st := range c.storesTo(al) {
+						if p, ok := st.Val.(*ssa.Parameter); ok {
+							return nil, p
+						}
+					}
+				}
+				// the innermost enclosing field of a longer-lived object
+				return a, nil
+			case *ssa.Alloc:
+				// spilled parameter (value receiver whose address is taken)
+				for _, st := range c.storesTo(a) {
+					if p, ok := st.Val.(*ssa.Parameter); ok {
+						return nil, p
+					}
+				}
+			}
+		}
+		return nil, nil
+	}
+	// covers: a store to addr (or to an enclosing / enclosed field of the same base) overwrites the field fa
+	covers := func(addr ssa.Value, fa *ssa.FieldAddr) bool {
+		chain := func(a ssa.Value) (ssa.Value, []int) {
+			var path []int
+			for {
+				f, ok := a.(*ssa.FieldAddr)
+				if !ok {
+					return a, path
+				}
+				path = append([]int{f.Field}, path...)
+				a = f.X
+			}
+		}
+		b1, p1 := chain(addr)
+		b2, p2 := chain(fa)
+		if !(b1 == b2 || c.sameVar(b1, b2)) {
+			return false
+		}
+		for i := 0; i < len(p1) && i < len(p2); i++ {
+			if p1[i] != p2[i] {
+				return false
+			}
+		}
+		return len(p1) > 0
+	}
+	forgotten := func(call ssa.Instruction, fa *ssa.FieldAddr) bool {
+		b := call.Block()
+		storeIn := func(blk *ssa.BasicBlock, from int) bool {
+			for i := from; i < len(blk.Instrs); i++ {
+				if st, ok := blk.Instrs[i].(*ssa.Store); ok && covers(st.Addr, fa) {
+					return true
+				}
+			}
+			return false
+		}
+		if storeIn(b, instrIndex(call)+1) {
+			return true
+		}
+		seen := map[*ssa.BasicBlock]bool{}
+		var walk func(blk *ssa.BasicBlock) bool // true: a return is reachable without the store
+		walk = func(blk *ssa.BasicBlock) bool {
+			if seen[blk] {
+				return false
+			}
+			seen[blk] = true
+			if storeIn(blk, 0) {
+				return false
+			}
+			if len(blk.Instrs) > 0 {
+				if _, isRet := blk.Instrs[len(blk.Instrs)-1].(*ssa.Return); isRet {
+					return true
+				}
+			}
+			for _, s := range blk.Succs {
+				if walk(s) {
+					return true
+				}
+			}
+			return false
+		}
+		if _, isRet := b.Instrs[len(b.Instrs)-1].(*ssa.Return); isRet {
+			return false
+		}
+		for _, s := range b.Succs {
+			if walk(s) {
+				return false
+			}
+		}
+		return true
+	}
+	keys := map[string]int{}
+	var check func(site ssa.Instruction, v ssa.Value, depth int, via string)
+	check = func(site ssa.Instruction, v ssa.Value, depth int, via string) {
+		fn := site.Parent()
+		fa, p := fieldLoad(v, 0)
+		n++
+		key := fmt.Sprintf("%s/release%s", fname(fn), via)
+		if keys[key]++; keys[key] > 1 {
+			key += fmt.Sprintf("#%d", keys[key])
+		}
+		switch {
+		case fa != nil:
+			if _, isDefer := site.(*ssa.Defer); isDefer {
+				r.bad(rule, key, c.at(site), desc, "the release is deferred: the field that still holds the object cannot be cleared after it")
+				return
+			}
+			if forgotten(site, fa) {
+				r.ok(rule, key, c.at(site), desc, "the field the object was loaded from is overwritten on every path from the release to the return", true)
+			} else {
+				r.bad(rule, key, c.at(site), desc, "the field the object was loaded from still holds it when "+fn.Name()+" returns: the next Get - in any interpreter - hands out an object this one keeps using (a closed stream reads another interpreter's file)")
+			}
+		case p != nil && depth < 3:
+			idx := paramIndex(p.Parent(), p)
+			sites := c.callSitesOf(p.Parent())
+			if len(sites) == 0 || c.usedAsValue(p.Parent()) {
+				r.undecided(rule, key, c.at(site), desc, "the released object comes from parameter "+p.Name()+" of "+fname(p.Parent())+" whose callers cannot all be enumerated")
+				return
+			}
+			for _, cs := range sites {
+				if idx < len(cs.Common().Args) {
+					check(cs.(ssa.Instruction), cs.Common().Args[idx], depth+1, via+"<-"+fname(cs.Parent()))
+				}
+			}
+		default:
+			r.ok(rule, key, c.at(site), desc, "the released object is not loaded from a field of a longer-lived object", false)
+		}
+	}
+	for _, fn := range c.LibFuncs() {
+		eachInstr(fn, func(in ssa.Instruction) {
+			ci, ok := in.(ssa.CallInstruction)
+			if !ok || !isPoolPut(ci.Common()) || len(ci.Common().Args) < 2 {
+				return
+			}
+			check(in, ci.Common().Args[1], 0, "")
+		})
+	}
+	if n == 0 {
+		r.info(rule, "scan/pools", "-", desc, "no sync.Pool is used by the library: no object changes hands between interpreters")
+	}
+	r.analysed(rule, fmt.Sprintf("%d library functions scanned for (*sync.Pool).Put, %d release obligations", len(c.LibFuncs()), n))
 }
